@@ -10,10 +10,11 @@ import copy
 import json
 
 CANARY_MOD = "verif_canary_pkg"
-# names that are safe to resolve/call should an audit ever let them through
+# names that are safe AND deterministic to resolve/call should an audit ever let them through
+# (no clocks, no id(): a trusted callable may legitimately be called by construct())
 UNTRUSTED_NAMES = [
     (CANARY_MOD, "Probe"), (CANARY_MOD, "probe_fn"), (CANARY_MOD + ".sub", "Other"),
-    ("os", "getcwd"), ("posixpath", "basename"), ("time", "time"), ("builtins", "id"),
+    ("os", "getcwd"), ("posixpath", "basename"), ("math", "sqrt"), ("builtins", "abs"),
 ]
 NEAR_MISS = [("builtin", "s.list"), ("", "builtins.list"), ("builtins.", "list"), ("builtins", "list "),
              ("Builtins", "list"), ("numpy", "ndarray."), ("builtins.list", ""), ("b", "uiltins.list")]
